@@ -532,6 +532,12 @@ pub fn history_strategy() -> impl Strategy<Value = History> {
             4 => (prop_oneof![6 => 1u8..=200, 1 => Just(0u8)], 0u8..12, any::<bool>()).prop_map(|(port, len, confirmed)| Step::Send { port, len, confirmed, rx: RxPlan::default() }),
             2 => (1u8..=200, 0u8..12, noise).prop_map(|(port, len, rx)| Step::Send { port, len, confirmed: false, rx }),
             1 => (1u16..4).prop_map(Step::Silence),
+            // Class C reception between uplinks (no-op on the Class A front-ends): accepted frames there
+            // are not "accepted in a Class A window", so every obligation survives them
+            2 => proptest::collection::vec(prop_oneof![
+                3 => (any::<bool>(), prop_oneof![Just(None), (1u8..=200).prop_map(Some)], 0u8..6, proptest::collection::vec(valid_cmd(reg), 0..3)).prop_map(|(confirmed, port, payload_len, fopts)| Recipe::Auth { delta: 1, confirmed, port, payload_len: if port.is_some() { payload_len } else { 0 }, fopts, frm_cmds: vec![], ack: false, fpending: false }),
+                1 => gen::recipe_strategy(reg),
+            ], 1..3).prop_map(move |v| if class_c { Step::RxcListen(v) } else { Step::Silence(1) }),
         ];
         let first = if otaa { gen::join_accept_strategy(reg, true).prop_map(|r| vec![Step::Join(RxPlan::rx1(r))]).boxed() } else { Just(vec![]).boxed() };
         (first, proptest::collection::vec(step, 2..=9)).prop_map(move |(mut pre, steps)| {
@@ -565,7 +571,7 @@ fn run_one(h: &History, st: &mut Stats, class: &str) -> Result<(), Failure> {
 
 pub fn run(ctx: &mut Ctx) {
     let thorough = ctx.tier == Tier::Thorough;
-    ctx.rule = "(a) field sweeps: every DR x TXPower nibble pair x every ChMaskCntl x mask patterns (single commands and blocks of 2-3), every DLSettings byte x frequency set, every RXTimingSetupReq value, NewChannelReq index x frequency set x DrRange, DlChannelReq index x frequency set, each as an authentic downlink (FOpts or port 0, RX1 or RX2) followed by three uplinks so that answers and stickiness are observed; (b) proptest histories of 2..9 transactions with 1..6 commands per downlink (valid-biased and arbitrary values), uplinks on port 0, rejected frames and Class C frames interleaved; 9 regions, nb/async/async+ClassC. Oracle: answers of the next uplink parsed by the reference codec (order, whole commands, 15-byte rule, only trailing drops, identical LinkADRAns copies); the device's own answer bits folded over the snapshot taken before the downlink must reproduce the snapshot after it (ACK = applied per the reference semantics, NAK = nothing changed); full ACKs of requests in the conservative must-reject set are violations; sticky answers repeat until the next Class A downlink. Non-trivial: history with >= 1 judged downlink carrying requests; distinct by hash".into();
+    ctx.rule = "(a0) Class C interplay: 5 request bundles x 5 kinds of Class C traffic (accepted plain / confirmed / MAC-bearing, rejected) heard while idle or between the windows of the following uplinks, before and after the answering uplink; (a) field sweeps: every DR x TXPower nibble pair x every ChMaskCntl x mask patterns (single commands and blocks of 2-3), every DLSettings byte x frequency set, every RXTimingSetupReq value, NewChannelReq index x frequency set x DrRange, DlChannelReq index x frequency set, each as an authentic downlink (FOpts or port 0, RX1 or RX2) followed by three uplinks so that answers and stickiness are observed; (b) proptest histories of 2..9 transactions with 1..6 commands per downlink (valid-biased and arbitrary values), uplinks on port 0, rejected frames and Class C frames interleaved; 9 regions, nb/async/async+ClassC. Oracle: answers of the next uplink parsed by the reference codec (order, whole commands, 15-byte rule, only trailing drops, identical LinkADRAns copies); the device's own answer bits folded over the snapshot taken before the downlink must reproduce the snapshot after it (ACK = applied per the reference semantics, NAK = nothing changed); full ACKs of requests in the conservative must-reject set are violations; sticky answers repeat until the next Class A downlink. Non-trivial: history with >= 1 judged downlink carrying requests; distinct by hash".into();
     ctx.assumptions = vec![
         "must-reject set is deliberately conservative (RFU ChMaskCntl, undefined/downlink-only DataRate, TXPower index outside the table, mask leaving no usable channel, RX1DROffset above the maximum, undefined RX2 DR, out-of-band frequency, NewChannelReq on default channels / index >= 16 / min>max, DlChannelReq on an undefined channel); everything else may be ACKed or NAKed but must be consistent".into(),
         "masks are compared on the effective set (mask AND defined channels)".into(),
@@ -667,6 +673,65 @@ pub fn run(ctx: &mut Ctx) {
                             v.push([Cmd::DevStatusReq, Cmd::RxParamSetupReq { dl_settings: 0, freq: fs[4] }, Cmd::RxTimingSetupReq(2), Cmd::LinkAdrReq { dr: 15, txp: 15, mask: 7, cntl: 0, nbtrans: 1 }, Cmd::DlChannelReq { idx: 0, freq: fs[5] }][(j + k) % 5].clone());
                         }
                         emit(v, st, "answer-overflow");
+                    }
+                }
+            }
+        }
+    });
+    // ---- Class C interplay: a Class C frame (idle listening, or heard between the windows of the next
+    // uplink) between a request-bearing Class A downlink and the uplink that owes the answers
+    ctx.parallel(|ti, n, st| {
+        for (ri, region) in regions.iter().enumerate() {
+            if ri % n != ti {
+                continue;
+            }
+            let reg = Reg::from_name(region.name()).unwrap();
+            let fs = gen::freq_set(reg);
+            let cfg = DevCfg { region: *region, join_bias: None, front: FrontKind::AsyncClassC, board: (14, 0) };
+            let mut rng = SplitMix::new(seed ^ 0xC08C ^ ri as u64);
+            let bundles: Vec<Vec<Cmd>> = vec![
+                vec![Cmd::LinkAdrReq { dr: 15, txp: 1, mask: 0x0007, cntl: 0, nbtrans: 1 }, Cmd::DevStatusReq, Cmd::RxTimingSetupReq(3)],
+                vec![Cmd::DevStatusReq],
+                vec![Cmd::RxParamSetupReq { dl_settings: 0, freq: reg.rx2_default().0 }, Cmd::DevStatusReq, Cmd::NewChannelReq { idx: 4, freq: fs[4], dr_range: 0x50 }],
+                vec![Cmd::NewChannelReq { idx: 5, freq: fs[4], dr_range: 0x50 }, Cmd::DlChannelReq { idx: 0, freq: fs[5] }, Cmd::LinkAdrReq { dr: 15, txp: 15, mask: 0xFFFF, cntl: if reg.fixed() { 6 } else { 0 }, nbtrans: 1 }],
+                vec![Cmd::RxTimingSetupReq(1)],
+            ];
+            let heard: Vec<Vec<Recipe>> = vec![
+                vec![Recipe::auth_empty(1)],
+                vec![Recipe::Auth { delta: 1, confirmed: true, port: Some(3), payload_len: 4, fopts: vec![], frm_cmds: vec![], ack: false, fpending: false }],
+                vec![Recipe::Auth { delta: 2, confirmed: false, port: Some(9), payload_len: 1, fopts: vec![Cmd::DevStatusReq, Cmd::RxTimingSetupReq(5)], frm_cmds: vec![], ack: false, fpending: false }],
+                vec![Recipe::Foreign { same_addr: true }, Recipe::auth_empty(1), Recipe::Replay(0)],
+                vec![Recipe::BitFlip { bit: 40, with_cmds: true }],
+            ];
+            for b in &bundles {
+                for hd in &heard {
+                    for in_frm in [false, true] {
+                        for place in 0..4u8 {
+                            let r = if in_frm { Recipe::Auth { delta: 1, confirmed: false, port: Some(0), payload_len: 0, fopts: vec![], frm_cmds: b.clone(), ack: false, fpending: false } } else { Recipe::auth_cmds(1, b.clone()) };
+                            let req = Step::Send { port: 1, len: 1, confirmed: false, rx: if place == 3 { RxPlan::rx2(r) } else { RxPlan::rx1(r) } };
+                            let plain = Step::Send { port: 7, len: 2, confirmed: false, rx: RxPlan::default() };
+                            let mut steps = vec![req];
+                            match place {
+                                0 | 3 => {
+                                    steps.push(Step::RxcListen(hd.clone()));
+                                    steps.push(plain.clone());
+                                }
+                                1 => steps.push(Step::Send { port: 7, len: 2, confirmed: false, rx: RxPlan { gap1: hd.clone(), ..Default::default() } }),
+                                _ => {
+                                    steps.push(plain.clone());
+                                    steps.push(Step::Send { port: 7, len: 2, confirmed: false, rx: RxPlan { gap2: hd.clone(), ..Default::default() } });
+                                }
+                            }
+                            steps.push(plain.clone());
+                            steps.push(Step::RxcListen(hd.clone()));
+                            steps.push(plain.clone());
+                            steps.push(Step::Send { port: 2, len: 1, confirmed: false, rx: RxPlan::rx1(Recipe::auth_empty(1)) });
+                            steps.push(plain);
+                            let h = History { cfg: cfg.clone(), activation: Activation::Abp { fcnt_up: 0, fcnt_down: None }, board: Board::default(), rng_script: vec![], rng_seed: rng.next_u64(), steps };
+                            if let Err(f) = run_one(&h, st, "classc-interplay") {
+                                st.fail(f);
+                            }
+                        }
                     }
                 }
             }
